@@ -8,7 +8,7 @@
    (tools/props/comps_xpath.py), and every case in which [eval_top impl_flags] differs from [eval_top spec_flags] is a
    listed deviation of libyang (known_findings.d/xpath.json). *)
 From Coq Require Import QArith Qround.
-From LY Require Import Base XPathConv XPathConvP XPathTree XPathSem XPathSemP XPathExamples.
+From LY Require Import Base XPathConv XPathConvP XPathTree XPathSem XPathSemP XPathExamples XPathLookup.
 Local Open Scope N_scope.
 
 (* Node-sets contain no duplicates and are in document order: every node-set value computed by the evaluator - any
@@ -153,3 +153,52 @@ Example C08_hypotheses_satisfiable :
   observe (eval_top spec_flags ex_tree IRoot p_c_l1) = ONodes [7; 17] /\
   observe (eval_top impl_flags ex_tree IRoot p_c_l1) = ONodes [7; 17].
 Proof. split; [exact ex_tree_wf|]. exact ex_path. Qed.
+
+(* ------------------------------------------------------------------------------------------------ *)
+(* key/value lookups = generic evaluation (XPathLookup.v)                                           *)
+(* ------------------------------------------------------------------------------------------------ *)
+(* a value expression that is context-free ([ctx_free]: no relative path start, no implicit context node, position()
+   or last() outside of nested predicates) has the same value for every instance of the list - for every setting of the
+   switches, in particular as coded *)
+Theorem C08_ctx_free_eval :
+  forall fl t e cx1 cx2, ctx_free e = true -> c_cur cx1 = c_cur cx2 -> eval fl t cx1 e = eval fl t cx2 e.
+Proof. exact ctx_free_eval. Qed.
+Print Assumptions C08_ctx_free_eval.
+
+(* list[k1=v1]...[kN=vN] with values that allow the lookup ([lookup_ok]: context-free, a string or exactly one node):
+   evaluating each value once and taking the instances whose keys have these values selects exactly the node-set that
+   the generic evaluation of the predicates on every instance selects - same nodes, same (document) order, hence no
+   duplicates - for every tree, every context (also reverse order), every candidate list, any number of keys *)
+Theorem C08_lookup_eq_generic :
+  forall t cx rv kvs, lookup_ok t (c_cur cx) kvs = true ->
+  forall insts, apply_preds spec_flags t cx rv (key_preds kvs) insts = Ok (lookup_insts t (c_cur cx) kvs insts).
+Proof. exact lookup_eq_generic. Qed.
+Print Assumptions C08_lookup_eq_generic.
+
+(* the step from every context SET, and the executable form used by the correspondence runs *)
+Theorem C08_lookup_step_eq_generic :
+  forall t cx base S0 m ln kvs,
+  eval spec_flags t cx base = Ok (VSet S0) -> lookup_ok t (c_cur cx) kvs = true ->
+  eval spec_flags t cx (EStep base false AxChild (TName (Some m) ln) (key_preds kvs)) =
+  bind (fold_res (fun acc c => Ok (merge_items acc
+                    (lookup_insts t (c_cur cx) kvs (cands spec_flags t AxChild (TName (Some m) ln) c)))) S0 [])
+       (fun l => Ok (VSet l)).
+Proof. exact lookup_step_set_eq_generic. Qed.
+Print Assumptions C08_lookup_step_eq_generic.
+
+Theorem C08_lookup_answer_eq_eval :
+  forall t c e r, lookup_answer_top t c e = Some r -> eval_top spec_flags t c e = r.
+Proof. exact lookup_answer_top_eq_eval. Qed.
+Print Assumptions C08_lookup_answer_eq_eval.
+
+(* the two defect classes repaired in /repo 97c7154: with the old condition the lookup differs from the generic result *)
+Example C08_lookup_context_dependent_refuted :
+  generic_keys (lch ECtx l_w) = Ok [] /\
+  map item_key (old_lookup_insts lk_tree IRoot lA l_k (lch ECtx l_w) l_insts) = [9%N] /\
+  lookup_ok lk_tree IRoot [(lA, l_k, lch ECtx l_w)] = false.
+Proof. exact lookup_context_dependent_refuted. Qed.
+Example C08_lookup_nodeset_as_string_refuted :
+  generic_keys (lch (lch ERoot l_c) l_zz) = Ok [] /\
+  map item_key (old_lookup_insts lk_tree IRoot lA l_k (lch (lch ERoot l_c) l_zz) l_insts) = [15%N] /\
+  lookup_ok lk_tree IRoot [(lA, l_k, lch (lch ERoot l_c) l_zz)] = false.
+Proof. exact lookup_nodeset_as_string_refuted. Qed.
